@@ -296,9 +296,24 @@ _SHARED = None
 
 def _solve_vc(task):
     """One verification condition -> (name, proved?, seconds, detail, failure reason|None)."""
-    nm, idx = task
+    nm, idx = task[0], task[1]
+    deep = len(task) > 2
     eng, groups, timeout, fast = _SHARED
     o = groups[nm][idx]
+    if deep:
+        # second phase (only when few conditions of the function are still open): 5x and 20x the budget
+        tt, r, sv = 0.0, "unknown", None
+        for cfg in ({"timeout": timeout * 5}, {"timeout": timeout * 20, "smt.random_seed": 3}):
+            cfg = dict(cfg)
+            r, dt, _, sv = _solve(eng, o, cfg.pop("timeout", timeout), cfg=cfg)
+            tt += dt
+            if r == "unsat":
+                return (nm, True, tt, "", None)
+        try:
+            why = sv.reason_unknown() if r == "unknown" else ""
+        except Exception:
+            why = ""
+        return (nm, False, tt, o.detail, r + (" (%s)" % why if why else ""))
     if nm.endswith(":cover-false"):
         # expected NOT to be provable: `unsat` here means contradictory assumptions on this path
         r, dt, _, sv = _solve(eng, o, min(timeout, 3000))
@@ -328,7 +343,7 @@ def _solve_vc(task):
     if r != "unsat" and not fast:
         # quantified queries are sensitive to incidental naming and load:
         # `unsat` from any configuration is a proof, so retry before giving up
-        for cfg in RETRY_CONFIGS + [{"timeout": timeout * 5}, {"timeout": timeout * 20, "smt.random_seed": 3}]:
+        for cfg in RETRY_CONFIGS:
             cfg = dict(cfg)
             r, dt, _, sv = _solve(eng, o, cfg.pop("timeout", timeout), cfg=cfg)
             tt += dt
@@ -426,11 +441,26 @@ def verify_one(args):
             # the historically slow clauses first, so that they do not end up alone at the end
             slow = ("preserve:content", "preserve:front", "preserve:values", "preserve:no_conflict", "preserve:rest", "preserve:sub")
             tasks.sort(key=lambda t: 0 if any(x in t[0] for x in slow) else 1)
-            solved = _collect_vcs(groups, robust_map(
+            raw = robust_map(
                 _solve_vc, tasks, inner, mp,
-                lambda t: (t[0], False, 0.0, "the solver process crashed on this verification condition", "unknown")))
+                lambda t: (t[0], False, 0.0, "the solver process crashed on this verification condition", "unknown"))
         else:
-            solved = _collect_vcs(groups, [_solve_vc(t) for t in tasks])
+            mp = None
+            raw = [_solve_vc(t) for t in tasks]
+        # second phase: a FEW conditions still open (a harmless rewrite the solver cannot re-prove at once) get
+        # 5x / 20x the budget; MANY open conditions mean the function really changed - reported without that wait
+        still = [i for i, x in enumerate(raw) if not x[1] and not tasks[i][0].endswith(":cover-false")
+                 and not str(x[4]).startswith("sat")]
+        if still and len(still) <= 4 and not fast:
+            dtasks = [tasks[i] + ("deep",) for i in still]
+            if mp is not None:
+                again = robust_map(_solve_vc, dtasks, inner, mp,
+                                   lambda t: (t[0], False, 0.0, "the solver process crashed on this verification condition", "unknown"))
+            else:
+                again = [_solve_vc(t) for t in dtasks]
+            for i, x in zip(still, again):
+                raw[i] = (x[0], x[1], raw[i][2] + x[2], x[3], x[4])
+        solved = _collect_vcs(groups, raw)
         for x, fr in solved:
             res.append(x)
             stime += x["time_s"]
